@@ -61,3 +61,28 @@ func VH_C07_AsyncOrder(n1, n2, batchSize int) {
 	vhAssert(err3 != nil, "write-after-close-fails")
 	vhReach("c07-async-order")
 }
+
+// The per-partition batch queue is a FIFO for every sequence of Put and Get operations (the initial capacity is
+// 2 here so that growth and wrap-around happen within a few operations; the Writer creates it with 10).
+func VH_C07_BatchQueueFIFO(ops int) {
+	q := newBatchQueue(2)
+	var model []*writeBatch
+	for i := 0; i < ops; i++ {
+		if len(model) > 0 && vhChoose("op", 2) == 1 {
+			got := q.Get()
+			vhAssert(got == model[0], "get-returns-the-oldest-batch")
+			model = model[1:]
+		} else {
+			b := &writeBatch{size: i + 1}
+			vhAssert(q.Put(b), "put-on-an-open-queue-succeeds")
+			model = append(model, b)
+		}
+	}
+	q.Close()
+	vhAssert(!q.Put(&writeBatch{}), "put-on-a-closed-queue-fails")
+	for _, want := range model {
+		vhAssert(q.Get() == want, "closed-queue-drains-in-submission-order")
+	}
+	vhAssert(q.Get() == nil, "drained-closed-queue-returns-nil")
+	vhReach("c07-batch-queue-fifo")
+}
